@@ -34,6 +34,10 @@ CLAIMS = {
         text="10 Lean theorems over the generated TrafficTimer and Manager tables for every interval T>=1 and arbitrary timed operation lists: responsive_never_dropped, silent_dropped_in_time / silent_after_answered_ping (drop exactly at the second expiry, < 3T), monitor_lifecycle, monitoring_restarts, follower_never_monitors, legal_never_raises, plus the witness that the pre-fix row violates the bound; delay/reset branch taken from generated flags; tied to a real leader Manager with task.Clock on a 1/8 s grid.",
         note="Modelled not verified: Connector mocked; loss is a separate event after disconnect(); ping-id freshness (os.urandom) assumed; argument values inside callLater are visible only to correspondence and oracle.",
         tech="Lean 4 proof (induction over timed traces on generated tables) + skeleton agreement + differential correspondence"),
+    "C17": dict(
+        text="25 kernel-only Lean theorems on the generated Manager/Connector/Terminator/DCP tables and an executable model with the fake network's state: stop_from_every_state / stop_completes_after_any_interleaving (12-clause invariant by induction over conformant event sequences: Dilator.stop always leads to stoppedD and B.closed exactly once), stop_tells_everything, abandon_drops_active, late_callbacks_harmless, late_accept_refused, old_peer_reported_live / _replay (the replay guard is taken from a generated source flag) / _report_is_final / _future_connect_fails; 26 call skeletons as obligations; two witness theorems for protocol-violating peers that block shutdown (documented observations); tied to a real Terminator+Dilator+Manager+Connector+DilatedConnectionProtocol per case in both roles.",
+        note="Liveness environment = conformant peer (a `reconnect` sent to a Leader or a `please` echoing our own side are out of scope; witnessed in Lean and kept in the corpus). Modelled not verified: fake listening/outbound network, ToyNoise, TrafficTimer beyond 'leader starts a ping timer' (C16). All-waiters-failed proved for the three canonical orders of key/versions/dilate/connect.",
+        tech="Lean 4 proof (invariant induction over event sequences, per-row decide on generated tables) + skeleton agreement + differential correspondence"),
     "C18": dict(
         text="each_at_most_once, causal_order (code<key<verifier<{versions,messages}), closed_last for every run of the closed system under arbitrarily reordering/duplicating servers, versions_before_messages under an order-preserving server (second certificate), table rows by decide; per-step correspondence with the real client; two-client oracle over both API styles incl. every get_* after closed failing.",
         note="Certificates evaluated with native_decide (reported per theorem). The Deferred facade (OneShotObserver, SequenceObserver, EventualQueue, _DeferredWormhole.closed) is a second executable model OBSERVER with 11 kernel-only theorems (after_closed_all_fail, each_deferred_fires_at_most_once, oneshot_first_value, observer_fifo, eventual_fifo/turn) tied to a real _DeferredWormhole.",
